@@ -39,7 +39,10 @@ OLD_SIZE = 5000
 # exists, the script's own status / signal}; if there is any fault the command fails with one of those statuses and
 # the target stays as it was; otherwise the target becomes $3 (even when empty) if $3 exists, else stdout if
 # non-empty, else it is removed.
-O_, F_, W_, E_ = ("none", "data"), ("none", "empty", "data", "deleted"), ("none", "new", "old"), ("0", "5", "kill9", "killTERM")
+O_, F_, W_, E_ = ("none", "data"), ("none", "empty", "data", "deleted", "append"), ("none", "new", "old"), ("0", "5", "kill9", "killTERM")
+# f=append: the script builds $3 with `>>` (legitimate: redo promises that $3 does not exist when the script starts).  It
+# differs from f=data only when a temporary file is lying around from an earlier, killed build: the prior states
+# "stale-tmp" (never built) and "generated+stale-tmp" put one there.
 
 
 def behaviour_name(o, f, w, e):
@@ -57,6 +60,8 @@ def make_behaviour(o, f, w, e):
         L.append(': > "$3"')
     elif f == "data":
         L.append(src + ' > "$3"')
+    elif f == "append":
+        L.append(src + ' >> "$3"')
     elif f == "deleted":
         L.append(src + ' > "$3"')
         L.append('rm -f "$3"')
@@ -77,7 +82,7 @@ def make_behaviour(o, f, w, e):
     faults = set()
     if w != "none":
         faults.add(206)
-    if o == "data" and f in ("empty", "data"):
+    if o == "data" and f in ("empty", "data", "append"):
         faults.add(207)
     if e == "5":
         faults.add(5)
@@ -89,7 +94,7 @@ def make_behaviour(o, f, w, e):
         return "\n".join(L), ("fail", sorted(faults), None)
     if f == "empty":
         return "\n".join(L), ("ok-new", [0], "empty")
-    if f == "data" or o == "data":
+    if f in ("data", "append") or o == "data":
         return "\n".join(L), ("ok-new", [0], "new")
     return "\n".join(L), ("ok-absent", [0], None)
 
@@ -102,7 +107,7 @@ def writes_target_itself(b):
 
 
 def has_output(b):
-    return "o=data" in b or "f=data" in b or "f=deleted" in b or ",w=new" in b or ",w=old" in b
+    return "o=data" in b or "f=data" in b or "f=append" in b or "f=deleted" in b or ",w=new" in b or ",w=old" in b
 
 
 _W = {}
@@ -124,7 +129,11 @@ def programs(tier):
     for b in BEHAVIOURS:
         if tier == "quick" and "e=killTERM" in b:
             continue      # quick: one signal (SIGKILL); thorough: also SIGTERM
-        for prior in ("absent", "generated"):
+        for prior in ("absent", "generated", "stale-tmp", "generated+stale-tmp"):
+            if "stale-tmp" in prior and not (",w=none," in b and b.endswith("e=0")):
+                continue     # a leftover temporary file matters to the scripts that succeed without touching $1
+            if "stale-tmp" not in prior and "f=append" in b:
+                continue     # without a leftover file f=append is f=data
             for size in (sizes if has_output(b) else sizes[:1]):   # behaviours without payload output: one size only
                 out.append({"behaviour": b, "size": size, "prior": prior})
     return out
@@ -162,12 +171,15 @@ def run_program(prog):
         (p / "payload.old").write_bytes(old)
         env = common.base_env(_W["bindir"], home)
         target = p / "t"
-        if prior == "generated":
+        if prior.startswith("generated"):
             (p / "t.do").write_text("cat payload.old\n")
             r = e3.run_session(["redo", "--no-log", "t"], p, env, root, "prior", timeout=60)
             if r["rc"] != 0 or _state(target, old, new) != "old":
                 raise MachineryError("could not produce the prior generated target: " + r["err"][-300:])
-        prior_state = "old" if prior == "generated" else "absent"
+        prior_state = "old" if prior.startswith("generated") else "absent"
+        if "stale-tmp" in prior:
+            # what a build killed while its script was writing $3 leaves behind
+            (p / "t.redo.tmp").write_bytes(b"partial output of a build that was killed\n")
         (p / "t.do").write_text(body % {"half": max(1, size // 2)} + "\n")
         senv, log, procs = e3.shim_env(env, root, "obs", observe=root / "o.sock")
         obs = []
